@@ -62,3 +62,5 @@ func VxC01_Freshness() {
 		vxCover("C01A/reported-stale")
 	}
 }
+
+type vxRequest = http.Request
